@@ -20,7 +20,7 @@ func isSQLMethod(cc *ssa.CallCommon, typ string, names ...string) bool {
 		return false
 	}
 	for _, n := range names {
-		if sc.Name() == n {
+		if engine.ShortName(sc) == n {
 			return true
 		}
 	}
@@ -76,7 +76,7 @@ func (c *Ctx) txTypestate(rule string) {
 			for _, cs2 := range engine.Calls(f) {
 				if isSQLMethod(cs2.Common(), "Tx", "Commit", "Rollback") && isTx(cs2.Common().Args[0]) {
 					fin[cs2.Instr] = true
-					if cs2.Common().StaticCallee().Name() == "Commit" {
+					if engine.ShortName(cs2.Common().StaticCallee()) == "Commit" {
 						commits = append(commits, cs2.Instr.(*ssa.Call))
 					}
 				}
@@ -288,7 +288,7 @@ func (c *Ctx) tracerAgreement(rule string) {
 			var fwd []*ssa.Call
 			for _, cs := range engine.Calls(m) {
 				cc := cs.Common()
-				if cc.IsInvoke() && cc.Method.Name() == m.Name() {
+				if cc.IsInvoke() && cc.Method.Name() == engine.ShortName(m) {
 					if call, ok := cs.Instr.(*ssa.Call); ok {
 						fwd = append(fwd, call)
 					}
@@ -405,7 +405,7 @@ func txFinisherKind(g *ssa.Function, p *ssa.Parameter) string {
 		}
 		if isSQLMethod(cs.Common(), "Tx", "Commit", "Rollback") && cs.Common().Args[0] == ssa.Value(p) {
 			fin[cs.Instr] = true
-			kinds[cs.Common().StaticCallee().Name()] = true
+			kinds[engine.ShortName(cs.Common().StaticCallee())] = true
 		}
 	}
 	if len(fin) == 0 {
